@@ -12,3 +12,5 @@ import NbioVerif.Properties.C18
 #print axioms StopM.c18_no_race_when_settled
 #print axioms StopM.c18_stop_progress_counterexample
 #print axioms StopM.c18_dial_race_counterexample
+#print axioms StopM.c18_stop_returns
+#print axioms StopM.c18_dialfail_pinned_counterexample
